@@ -14,7 +14,7 @@ VARIABLES st,        \* Tx -> "idle" | "active" | "committing" | "committed" | "
           hdr,       \* durable page zero: set of transactions recorded as committed
           log,       \* sequence of records; log[1..dur] is durable
           dur,
-          pc,        \* "run" | "ck1".."ck3" (inside checkpoint) | "down" | "rec1".."rec4" (inside recovery)
+          pc,        \* "run" | "ck1".."ck3" (inside checkpoint) | "down" | "rec0".."rec3" (inside recovery)
           acked,     \* ghost: transactions whose COMMIT returned
           order,     \* ghost: commit order of the transactions that must be visible
           ops,       \* ghost: Tx -> sequence of [k, v]
@@ -28,6 +28,9 @@ D(d) == d \in Dev
 AbortAsCommit   == D("AbortLoggedAsCommit")            \* runtime/context.rs:127
 RecTruncEarly   == D("TruncateBeforeRecoveredPagesDurable") \* lib.rs:325 truncates, pages flushed much later
 StealNoForce    == D("StealWithoutLogForce")           \* pager.rs:415 evicts without forcing the log
+RecLogsReplay   == D("RecoveryLogsReplay")             \* lib.rs run_recovery: the executors replaying the log logged again, under
+                                                       \* the recovery transaction RecR, which never commits (repaired: silent logger)
+RecR == 0                                              \* the recovery transaction (not in Tx)
 \* seeded design mutations (not in the code; used to show the properties bite)
 AckNoForce      == D("MUT_AckWithoutForce")
 CkTruncFirst    == D("MUT_CheckpointTruncatesFirst")
@@ -115,6 +118,13 @@ Crash == /\ pc # "down" /\ crashes < MaxCrashes
 Winners == {t \in Tx : Has("commit", t, Len(log))}
 Losers  == {t \in Tx : Has("begin", t, Len(log))} \ Winners
 Strip(p, ts) == SelectSeq(p, LAMBDA x : x.by \notin ts)
+\* RecoveryLogsReplay: what an earlier, interrupted recovery logged under RecR is the work of a loser - undoing it removes
+\* the very versions the winners wrote (a replayed "upd" of value v is the version [val v, by v])
+Copied(k, x) == \E i \in 1..Len(log) : log[i].ty = "upd" /\ log[i].t = RecR /\ log[i].k = k /\ log[i].v = x.val
+UndoCopies(pages) == [k \in Keys |-> SelectSeq(pages[k], LAMBDA x : ~Copied(k, x))]
+RECURSIVE Copies(_)
+Copies(i) == IF i > Len(log) THEN <<>>
+             ELSE (IF log[i].ty = "upd" /\ log[i].t \in Winners THEN <<Rec("upd", RecR, log[i].k, log[i].v)>> ELSE <<>>) \o Copies(i + 1)
 RECURSIVE Redo(_, _)
 Redo(pages, i) ==
   IF i > Len(log) THEN pages
@@ -122,11 +132,18 @@ Redo(pages, i) ==
        IF r.ty = "upd" /\ r.t \in Winners /\ ~\E j \in 1..Len(pages[r.k]) : pages[r.k][j].by = r.t /\ pages[r.k][j].val = r.v
        THEN Redo([pages EXCEPT ![r.k] = <<[val |-> r.v, by |-> r.t]>> \o @], i + 1)
        ELSE Redo(pages, i + 1)
+\* the code redoes the winners first and undoes the losers afterwards (io/recovery.rs run_recovery)
 RecApply == /\ pc = "down"
-            /\ LET undone == [k \in Keys |-> Strip(disk[k], Losers)] IN cache' = Redo(undone, 1)
+            /\ LET redone == Redo(disk, 1)
+                   undone == [k \in Keys |-> Strip(redone[k], Losers)]
+               IN cache' = IF RecLogsReplay THEN UndoCopies(undone) ELSE undone
+            /\ log' = IF RecLogsReplay THEN log \o <<Rec("begin", RecR, AnyKey, 0)>> \o Copies(1) ELSE log
             /\ dirty' = Keys /\ known' = hdr \cup Winners
-            /\ pc' = "rec1"
-            /\ UNCHANGED <<st, disk, hdr, log, dur, acked, order, ops, crashes, ckpts>>
+            /\ pc' = "rec0"
+            /\ UNCHANGED <<st, disk, hdr, dur, acked, order, ops, crashes, ckpts>>
+\* the checkpoint that ends recovery forces the log before it writes pages (Pager::flush)
+RecForce == /\ pc = "rec0" /\ dur' = Len(log) /\ pc' = "rec1"
+            /\ UNCHANGED <<st, known, cache, dirty, disk, hdr, log, acked, order, ops, crashes, ckpts>>
 \* ideal: make the recovered pages and header durable, then truncate; as built: truncate first
 RecPages == /\ pc = "rec1" /\ ~RecTruncEarly /\ disk' = WritePages /\ dirty' = {} /\ pc' = "rec2"
             /\ UNCHANGED <<st, known, cache, hdr, log, dur, acked, order, ops, crashes, ckpts>>
@@ -139,7 +156,7 @@ RecTruncate == /\ pc = IF RecTruncEarly THEN "rec1" ELSE "rec3"
 Next == \/ \E t \in Tx : Begin(t) \/ LogCommit(t) \/ Ack(t) \/ Rollback(t) \/ \E k \in Keys : Write(t, k)
         \/ ForceLog \/ (\E k \in Keys : Evict(k))
         \/ CkStart \/ CkPages \/ CkHeader \/ CkTruncate
-        \/ Crash \/ RecApply \/ RecPages \/ RecHeader \/ RecTruncate
+        \/ Crash \/ RecApply \/ RecForce \/ RecPages \/ RecHeader \/ RecTruncate
 Spec == Init /\ [][Next]_vars
 
 (* ------------------------------ properties ------------------------------ *)
